@@ -407,7 +407,22 @@ def check_revision_iterator(ctx):
                         and (st['lhs']['l'] == 0 or lib.flows_to(body, st['lhs']['l'])):
                     somes.append((b, st))
         tails = [c for c in body.calls() if c.dest['l'] == 0 and not c.dest['p']]
-        if not somes:
+        then_ok = False
+        for c in tails:
+            if c.is_(r'bool>::then(_some)?$') and c.args:
+                # the condition is `!v.is_empty()` (or len comparison) of the vector handed out
+                cur, d = lib.resolve_copy(body, op_local(c.args[0])) if is_place(c.args[0]) else (None, None)
+                neg = False
+                if d is not None and d.kind == 'assign' and d.rv['k'] == 'un' and d.rv['op'] == 'Not' and is_place(d.rv['a']):
+                    neg = True
+                    cur, d = lib.resolve_copy(body, op_local(d.rv['a']))
+                if d is not None and d.kind == 'call' and d.call.is_(r'::is_empty$') and neg:
+                    then_ok = True
+                    ctx.ok(body.key, 'none-when-exhausted', 'returned through (!v.is_empty()).%s(v)' % c.name, c.where())
+        if then_ok:
+            somes = []
+            tails = []
+        if not somes and not then_ok:
             ctx.bad(body.key, 'none-when-exhausted',
                     'next() returns the combined value without any emptiness test (%s): a vector with zero chains '
                     'or with all chains exhausted must yield None, otherwise decapsulation never terminates'
@@ -485,9 +500,19 @@ def discharge(ctx, F, ps):
                     return 'dominated by a length check len >= %d' % need
                 # closure: guard may live in the same closure only (params are fresh per call)
         return None
+    if ps.kind in ('slice-op', 'str-op') and ps.detail in ('split_at', 'split_at_mut') and ps.call is not None and len(ps.call.args) == 2 \
+            and 'str' not in (ps.call.full.split('::split_at')[0][-12:]):
+        c = ps.call
+        n_ = lib.classify_scalar(body, c.args[1])
+        if n_[0] == 'const' and n_[1] is not None:
+            roots = lib.roots_of(body, c.args[0])
+            edges = lib.len_at_least_edges(body, roots, n_[1])
+            if edges and body.edges_dominate(edges, ps.b):
+                return 'split_at(%d) dominated by a length check len >= %d' % (n_[1], n_[1])
+        return None
     if ps.kind in ('rem0', 'div0') and ps.term is not None:
         # `x % s.len()` inside `for i in 0..s.len()`: the body runs only when len > 0
-        why = loop_over_same_len(body, ps)
+        why = loop_over_same_len(body, ps) or closure_rem_by_range_len(F, body, ps)
         if why:
             return why
         return None
@@ -501,6 +526,8 @@ def discharge(ctx, F, ps):
                 oks += 1
         if oks == 2:
             return 'both indices are within 0..len of the swapped slice (loop variable over 0..len / remainder by len)'
+        if all(closure_index_in_bounds(F, body, a, c.args[0]) for a in c.args[1:]):
+            return 'both indices are within 0..len of the captured slice (closure run over 0..len; element / remainder by len)'
         return None
     if ps.kind == 'bounds' and ps.term is not None:
         why = bounds_by_range(body, ps)
@@ -551,6 +578,98 @@ def range_loop_var(body, op):
 def len_roots(body, op):
     c = lib.classify_scalar(body, op)
     return c[1] if c[0] == 'len' else None
+
+
+def captured_operand(F, cb, op):
+    """For an operand of a closure body that is (a copy / reborrow / deref of) a captured variable: the
+    creator body and the operand it captured.  None otherwise."""
+    if cb.kind != 'Closure':
+        return None
+    sl = backward_slice(cb, [op], follow_mutarg=False)
+    if sl.calls or any(p >= 2 for p in sl.params):
+        return None
+    for pl in sl.places:
+        f = lib.env_field_of(pl)
+        if f is not None:
+            pb, cop = lib.upvar_operand(F, cb, f)
+            if pb is not None and cop is not None:
+                return pb, cop
+    return None
+
+
+def closure_range(F, cb):
+    """If closure cb is run by an Iterator method over `a..b`: (parent body, start operand, end operand)."""
+    for (pb, c, idx) in lib.closure_consumers(F, cb):
+        if c.is_(r'^std::iter::Iterator::(for_each|map|try_for_each|fold|try_fold|filter|any|all)$') and 'std::ops::Range<' in (c.self_ty or ''):
+            sl = backward_slice(pb, [c.args[0]], follow_mutarg=False)
+            rg = [a for a in sl.aggs if a.get('adt') == 'std::ops::Range']
+            if len(rg) == 1:
+                return pb, rg[0]['ops'][0], rg[0]['ops'][1]
+    return None
+
+
+def len_roots_x(F, body, op):
+    """len-roots of an operand, looking through a captured variable into the creator."""
+    r = len_roots(body, op)
+    if r:
+        return ('here', r)
+    cap = captured_operand(F, body, op)
+    if cap is not None:
+        pb, cop = cap
+        # captured by reference: `&len`
+        r = len_roots(pb, cop)
+        if not r and is_place(cop):
+            for (pl, m) in pb.refs().get(op_local(cop), []):
+                r = len_roots(pb, {'cp': pl})
+                if r:
+                    break
+        if r:
+            return ('parent', r)
+    return None
+
+
+def closure_rem_by_range_len(F, body, ps):
+    """rem0 inside a closure run over `0..len(x)` whose divisor is that same (captured) len."""
+    cr = closure_range(F, body)
+    if cr is None:
+        return None
+    pb, start, end = cr
+    cond = ps.term['cond']
+    _, d = lib.resolve_copy(body, op_local(cond)) if is_place(cond) else (None, None)
+    if d is None or d.kind != 'assign' or d.rv['k'] != 'bin' or d.rv['op'] != 'Eq':
+        return None
+    div = d.rv['a'] if d.rv['b'].get('c', {}).get('v') == 0 else d.rv['b']
+    dr = len_roots_x(F, body, div)
+    er = len_roots(pb, end)
+    if dr and dr[0] == 'parent' and er and (dr[1] & er) and lib.classify_scalar(pb, start) == ('const', 0):
+        return 'divisor is the (captured) len(x) and the closure runs over `0..len(x)`: it is only called when len > 0'
+    return None
+
+
+def closure_index_in_bounds(F, body, op, slice_op):
+    """Index used in a closure run over 0..len(x): the range element itself, or a remainder by len(x), for the
+    captured slice x."""
+    cr = closure_range(F, body)
+    if cr is None:
+        return False
+    pb, start, end = cr
+    er = len_roots(pb, end)
+    cap = captured_operand(F, body, slice_op)
+    if not er or cap is None or lib.classify_scalar(pb, start) != ('const', 0):
+        return False
+    sroots = lib.roots_of(cap[0], cap[1])
+    for (pl, m) in cap[0].refs().get(op_local(cap[1]), []) if is_place(cap[1]) else []:
+        sroots |= lib.roots_of(cap[0], {'cp': pl})
+    if not (er & sroots):
+        return False
+    l = op_local(op)
+    cur, d = lib.resolve_copy(body, l)
+    if body.is_param(cur) and cur >= 2:
+        return True
+    if d is not None and d.kind == 'assign' and d.rv['k'] == 'bin' and d.rv['op'] == 'Rem':
+        dr = len_roots_x(F, body, d.rv['b'])
+        return bool(dr and (dr[1] & er))
+    return False
 
 
 def loop_over_same_len(body, ps):
